@@ -29,7 +29,7 @@ Sc(kinds, facts, sigok, priceok, gas, intr) ==
   [kinds |-> kinds, facts |-> facts, sigok |-> sigok, priceok |-> priceok, gas |-> gas, intr |-> intr]
 
 \* ---- concrete clause kinds (the table of cmd/txexec) ----------------------------------------------------------
-OkU == {"store", "storeval", "nest", "nestok", "nestinv", "clear", "send", "ecall", "nest3sd"}
+OkU == {"store", "storeval", "nest", "nestok", "nestinv", "clear", "send", "ecall", "nest3sd", "nestcreate", "nestcreate2"}
 OkOther == {"xfer", "energy", "sd", "sdself", "sdben"}
 OkNil == {"create"}
 KeepU == {"revert", "nestdie"}
